@@ -712,3 +712,96 @@ def borrowed_cases(ctx, judge, quick_subset=False):
                         if judge(info, w, before, o, after) is False:
                             return n
     return n
+
+
+def warnings_as_errors_cases(ctx, judge):
+    """Appends that emit a TimingMismatchWarning / ScalingMismatchWarning, run with warnings turned into errors (-W error,
+    pytest filterwarnings=error): the warning then RAISES out of append().  judge(info, w, before, outcome, after, sources_before,
+    sources_after) is called after every call."""
+    import warnings
+    import numpy as np
+    from nitypes.waveform import AnalogWaveform, ComplexWaveform, DigitalWaveform, LinearScaleMode, Timing
+    from props.common import outcome
+    t0 = dt.datetime(2025, 1, 1, tzinfo=dt.timezone.utc)
+    sec = dt.timedelta(seconds=1)
+    n = 0
+
+    def tim(kind, count, start=0, interval=1):
+        if kind == "irregular":
+            return Timing.create_with_irregular_interval([t0 + (start + i) * sec for i in range(count)])
+        if kind == "regular":
+            return Timing.create_with_regular_interval(interval * sec, t0)
+        return Timing.create_with_no_interval(t0)
+    for cls, dtype in ((AnalogWaveform, np.float64), (ComplexWaveform, np.complex128), (DigitalWaveform, np.uint8)):
+        for tk in ("irregular", "regular", "none"):
+            for slack in (0, 4):
+                for what in ("scale", "interval", "both"):
+                    if cls is DigitalWaveform and what != "interval":
+                        continue
+                    if tk == "irregular" and what == "interval":
+                        continue
+                    for nsrc in (1, 2, 3):
+                        def mk(count, start, scale, interval):
+                            kw = {"timing": tim(tk, count, start, interval), "extended_properties": {"k": "v"} if start == 0 else {"new": start}}
+                            if cls is DigitalWaveform:
+                                buf = np.zeros((count + (slack if start == 0 else 0), 1), dtype)
+                                return cls(data=buf, sample_count=count, **kw)
+                            buf = np.arange(count + (slack if start == 0 else 0)).astype(dtype)
+                            return cls(raw_data=buf, sample_count=count, scale_mode=LinearScaleMode(scale, 0.0), **kw)
+                        w = mk(2, 0, 1.0, 1)
+                        srcs = []
+                        for j in range(nsrc):
+                            odd = j == nsrc - 1             # the last source is the one that differs
+                            srcs.append(mk(2, 2 + 2 * j, 2.0 if (odd and what in ("scale", "both")) else 1.0, 3 if (odd and what in ("interval", "both")) else 1))
+                        before = observe(w)
+                        sb = [observe(x) for x in srcs]
+                        with warnings.catch_warnings():
+                            warnings.simplefilter("error")
+                            o = outcome(w.append, srcs[0] if nsrc == 1 else srcs)
+                        after = observe(w)
+                        sa = [observe(x) for x in srcs]
+                        n += 1
+                        info = dict(cls=cls.__name__, timing=tk, slack=slack, differs=what, sources=nsrc, warnings="turned into errors")
+                        ctx.case(("warnings-as-errors", cls.__name__, tk, slack, what, nsrc))
+                        ctx.count("warnings-as-errors", "raised" if o[0] == "err" else "returned")
+                        if judge(info, w, before, o, after, sb, sa) is False:
+                            return n
+    return n
+
+
+def narrow_scalar_cases(ctx, report):
+    """Sizes, indices and counts given as NARROW NumPy integer scalars (uint8, int8, uint16, int16) whose sums with each other or with
+    the object's geometry do not fit their own type: the call must do exactly what it does for the same numbers as Python ints
+    (same outcome class, same state afterwards).  report(info, observed, required) is called for every difference."""
+    import numpy as np
+    from nitypes.waveform import AnalogWaveform, ComplexWaveform, DigitalWaveform, Spectrum
+    from props.common import outcome
+    n = 0
+    combos = ((AnalogWaveform, np.float64, False), (ComplexWaveform, np.complex128, False), (DigitalWaveform, np.uint8, True), (Spectrum, np.float64, False))
+    quads = [(np.uint8, 250, 200, 100), (np.uint8, 300, 200, 100), (np.uint8, 300, 200, 56), (np.int8, 120, 112, 31), (np.int8, 200, 100, 100),
+             (np.uint16, 65000, 60000, 10000), (np.int16, 40000, 30000, 10000), (np.uint8, 255, 255, 1), (np.uint8, 256, 255, 1)]
+    for cls, dtype, digital in combos:
+        getter = "get_raw_data" if hasattr(cls, "get_raw_data") else "get_data"
+        for T, length, a, b in quads:
+            src = (np.arange(length) % 2).astype(dtype).reshape(-1, 1) if digital else np.arange(length).astype(dtype)
+
+            def fresh(cap=3):
+                return cls(cap, 1, dtype) if digital else cls(cap, dtype)
+            calls = [("load_data(start_index, sample_count)", lambda w, x, y: w.load_data(src, start_index=x, sample_count=y)),
+                     ("load_data(copy=False)", lambda w, x, y: w.load_data(src, copy=False, start_index=x, sample_count=y)),
+                     (getter, lambda w, x, y: (w.load_data(src), len(getattr(w, getter)(x, y)))[1]),
+                     ("constructor(sample_count, start_index, capacity)", lambda w, x, y: (cls(y, 1, dtype, start_index=x, capacity=length) if digital
+                                                                                          else cls(y, dtype, start_index=x, capacity=length)).sample_count)]
+            if cls is not Spectrum:
+                calls.append(("sample_count setter after start_index", lambda w, x, y: (w.load_data(src, copy=False, start_index=x, sample_count=0), setattr(w, "sample_count", y))[1]))
+            for label, call in calls:
+                wn, wp = fresh(), fresh()
+                on, op = outcome(call, wn, T(a), T(b)), outcome(call, wp, int(a), int(b))
+                sn, sp = observe(wn), observe(wp)
+                n += 1
+                ctx.case(("narrow-scalar", cls.__name__, label, T.__name__, length, a, b))
+                same = (on[0] == op[0]) and (on[1] == op[1] if on[0] == "err" else (on[1] == op[1] or on[1] is None)) and sn == sp
+                if not same:
+                    report(dict(cls=cls.__name__, call=label, scalar_type=T.__name__, array_length=length, first=a, second=b),
+                           f"{str(on)[:100]}; count {sn.get('count')} capacity {sn.get('capacity')}", f"{str(op)[:100]}; count {sp.get('count')} capacity {sp.get('capacity')} (the same call with Python ints)")
+    return n
